@@ -147,6 +147,17 @@ func main() {
 	defer out.Flush()
 	for in.Scan() {
 		w := strings.Fields(in.Text())
+		if len(w) == 4 && w[0] == "panicid" { // the panic of a step reaches the caller as it is: see panicCase
+			n, err1 := strconv.Atoi(w[1])
+			k, err2 := strconv.Atoi(w[2])
+			reps, err3 := strconv.Atoi(w[3])
+			if err1 != nil || err2 != nil || err3 != nil || n < 2 || n > 20 || k < 1 || k > n || reps < 1 {
+				fmt.Fprintln(out, "bad-op")
+			} else {
+				fmt.Fprintln(out, panicCase(n, k, reps))
+			}
+			continue
+		}
 		if len(w) == 3 && w[0] == "ident" { // identity of the values handed along: see identCase
 			n, err1 := strconv.Atoi(w[1])
 			calls, err2 := strconv.Atoi(w[2])
@@ -273,4 +284,62 @@ func identCase(n, calls int) string {
 		parts = append(parts, fmt.Sprintf("%s cap=%d %s", t, h.r.seen, st))
 	}
 	return strings.Join(parts, " | ")
+}
+
+// Case kind `panicid N k reps`: step k panics with a private sentinel value on the argument -1 (what f_N(...f_1(a))
+// itself would do). The composed function is called `reps` times with that argument, the caller recovering every
+// time, then once with 7. Tokens: `same` - every recovered value WAS the sentinel (compared by identity), otherwise
+// `diff:<what came instead>`; `ok` - the last call returned f_N(...f_1(7)), otherwise `bad:<result or panic>`.
+type bailout struct{ at int }
+
+func panicCase(n, k, reps int) string {
+	sentinel := &bailout{at: k}
+	f := make([]func(any) any, n)
+	for i := 0; i < n; i++ {
+		step := i + 1
+		f[i] = func(v any) any {
+			x := v.(int64)
+			if x < 0 {
+				if step == k {
+					panic(sentinel)
+				}
+				return x
+			}
+			return (3*x + int64(step)) % modulus
+		}
+	}
+	g, ok := apply(n, nil, f)
+	if !ok {
+		return "panic"
+	}
+	first := "same"
+	for r := 0; r < reps && first == "same"; r++ {
+		func() {
+			defer func() {
+				e := recover()
+				if e == nil {
+					first = "diff:no-panic"
+				} else if b, isB := e.(*bailout); !isB || b != sentinel {
+					first = fmt.Sprintf("diff:%T", e)
+				}
+			}()
+			g(int64(-1))
+		}()
+	}
+	want := int64(7)
+	for i := 0; i < n; i++ {
+		want = (3*want + int64(i+1)) % modulus
+	}
+	second := "ok"
+	func() {
+		defer func() {
+			if e := recover(); e != nil {
+				second = fmt.Sprintf("bad:panic:%v", e)
+			}
+		}()
+		if r := g(int64(7)); r != any(want) {
+			second = fmt.Sprintf("bad:%v", r)
+		}
+	}()
+	return first + " " + second
 }
